@@ -207,9 +207,23 @@ CHECKS = {
             "blocks, directory leaves, htree nodes, xattr blocks, journal superblock, special inodes, block "
             "swaps, byte mutations; 1-5 per case) a repair that claims success is followed by a clean -fn, "
             "except for the listed non-convergence classes of the pinned tree (each reduced to a 1-minimal "
-            "corruption and keyed by field + second-pass problem codes).",
+            "corruption and keyed by that specific input: image + object.field operator old->new).",
             "The universe is finite and was soaked completely; quick runs a seeded 3000-case sample of it.",
             "DESIGN.md section 2, C01"),
+    "C02": ("exploration",
+            "runtime monitoring with an independent oracle: every image on which e2fsck -fn exits 0 is "
+            "re-read by pyext4/check.py (no libext2fs code: five invariant families), over two finite "
+            "universes of structured corruptions of committed corpus images (stream a: 40000 corruptions "
+            "kept iff the independent checker sees a broken invariant, then e2fsck -fn must exit != 0; "
+            "stream b: 60000 post-repair images that e2fsck -fn accepts must pass the independent checker)",
+            "For the enumerated cases an image the independent checker rejects (block out of range / in fixed "
+            "metadata / doubly owned, bitmap or count differing from usage, link count or reachability, "
+            "malformed extent tree / directory block / htree node, failing metadata checksum) never gets "
+            "exit 0 from e2fsck -fn, except for the listed inputs (two root causes, 12 inputs).",
+            "Both universes were soaked completely; quick runs a seeded sample (2000 + 1000). The oracle is "
+            "calibrated to be silent on the corpus and on the e2fsck-accepted images of tests/*/image.gz; it "
+            "judges only the five families of the statement.",
+            "DESIGN.md section 2, C02"),
 }
 
 NOT_YET = "check not built yet in this round (planned, see DESIGN.md section 2)"
